@@ -644,6 +644,15 @@ type peekedConn struct {
 // be read again.
 func (c *peekedConn) Read(buf []byte) (int, error) { return c.r.Read(buf) }
 
+// CloseWrite shuts down the write side of the embedded net.Conn if it can be
+// shut down on its own.
+func (c *peekedConn) CloseWrite() error {
+	if cw, ok := c.Conn.(interface{ CloseWrite() error }); ok {
+		return cw.CloseWrite()
+	}
+	return errors.New("martian: connection cannot be half-closed")
+}
+
 func (p *Proxy) roundTrip(ctx *Context, req *http.Request) (*http.Response, error) {
 	if ctx.SkippingRoundTrip() {
 		log.Debugf("martian: skipping round trip")
@@ -670,6 +679,22 @@ func (p *Proxy) connect(req *http.Request) (*http.Response, net.Conn, error) {
 		res, err := http.ReadResponse(pbr, req)
 		if err != nil {
 			return nil, nil, err
+		}
+
+		if res.StatusCode/100 == 2 {
+			// A successful response to CONNECT has no body: whatever follows
+			// its header block is tunnelled data (RFC 7231, section 4.3.6).
+			// http.ReadResponse does not know that and, as such a response
+			// carries no Content-Length, presents the rest of the connection
+			// as a body that lasts until EOF; relaying that "body" would hold
+			// back the 200 and swallow the target's stream.
+			res.Body = http.NoBody
+			// Tunnelled bytes that were read together with the response head
+			// are in pbr; hand them out before reading from conn again.
+			if n := pbr.Buffered(); n > 0 {
+				peeked, _ := pbr.Peek(n)
+				conn = &peekedConn{conn, io.MultiReader(bytes.NewReader(peeked), conn)}
+			}
 		}
 
 		return res, conn, nil
